@@ -4,7 +4,7 @@
    split_interior as a structural splice. *)
 From Coq Require Import ZArith List Bool Lia Sorting.Permutation Sorting.Sorted.
 From TV Require Import Lib.MachInt Gen.Varint Model.BTree Model.BTreeSpec Model.BTreeInv
-  Proof.BTreeOrder Proof.BTreeInv Proof.BTreeLeaf.
+  Proof.BTreeOrder Proof.BTreeInv Proof.BTreeLeaf Proof.BTreeMid.
 Import ListNotations.
 Open Scope Z_scope.
 Arguments Z.sub : simpl never.
@@ -201,7 +201,7 @@ Proof. unfold splice. rewrite (proj2 (nth_error_None kids (length kids))) by lia
 
 Lemma int_ins_room id (kids : list kid) r i (L : tree) s (R : tree) np :
   sep_pos (map fst kids) i s -> (i <= length kids)%nat -> klen s + ISLOT <= ifree V kids ->
-  int_ins V id kids r i L s R np = IErr EPanic
+  int_ins V id kids r i L s R np = IErr EZeroSep
   \/ int_ins V id kids r i L s R np = IOk (Node id (fst (splice kids r i L s R)) (snd (splice kids r i L s R))) np.
 Proof.
   intros Hsp Hi Hroom. unfold int_ins. destruct (set_child V kids r i L) as [kids1 right1] eqn:Esc.
@@ -245,16 +245,20 @@ Proof.
   - apply IH.
 Qed.
 
+Definition ksizes (K : list kid) : list Z := map (fun sc : kid => klen (fst sc) + ISLOT) K.
 Definition si_body (id np : Z) (K : list kid) (rr : tree) : ires V :=
-  let mid := (length K / 2)%nat in
-  match nth_error K mid with
-  | Some pc =>
-      match build_kids V [] (firstn mid K), build_kids V [] (skipn (S mid) K) with
-      | inr lk, inr rk => ISplit (Node id lk (snd pc)) (fst pc) (Node np rk rr) (np + 1)
-      | inl e, _ => IErr e
-      | _, inl e => IErr e
+  match best_mid (ksizes K) (sumz (ksizes K)) (length K / 2)%nat O 0 None with
+  | None => IErr EIntFull
+  | Some mid =>
+      match nth_error K mid with
+      | Some pc =>
+          match build_kids V [] (firstn mid K), build_kids V [] (skipn (S mid) K) with
+          | inr lk, inr rk => ISplit (Node id lk (snd pc)) (fst pc) (Node np rk rr) (np + 1)
+          | inl e, _ => IErr e
+          | _, inl e => IErr e
+          end
+      | None => IErr EPanic
       end
-  | None => IErr EPanic
   end.
 
 Lemma split_interior_eq id (kids : list kid) r i (L : tree) s (R : tree) np :
@@ -268,18 +272,24 @@ Proof.
   rewrite (ppos_sep_pos s (fst (set_child V kids r i L)) i) by (rewrite ?Hseps1, ?Hlen1; assumption || lia).
   assert (Hgen : forall (K : list kid) (rr : tree) seps' chs' lastc,
      seps' = map fst K -> chs' = map snd K -> lastc = rr ->
-     match nth_error seps' (length seps' / 2), nth_error chs' (length seps' / 2) with
+     match best_mid (map (fun k : key => klen k + ISLOT) seps') (sumz (map (fun k : key => klen k + ISLOT) seps')) (length seps' / 2) 0 0 None with
+     | None => IErr EIntFull
+     | Some mid =>
+     match nth_error seps' mid, nth_error chs' mid with
      | Some prom, Some lright =>
-         match build_kids V [] (combine (firstn (length seps' / 2) seps') (firstn (length seps' / 2) chs')),
-               build_kids V [] (combine (skipn (S (length seps' / 2)) seps') (skipn (S (length seps' / 2)) chs')) with
+         match build_kids V [] (combine (firstn mid seps') (firstn mid chs')),
+               build_kids V [] (combine (skipn (S mid) seps') (skipn (S mid) chs')) with
          | inr lk, inr rk => ISplit (Node id lk lright) prom (Node np rk lastc) (np + 1)
          | inl e, _ => IErr e
          | _, inl e => IErr e
          end
      | _, _ => IErr EPanic
+     end
      end = si_body id np K rr).
-  { intros K rr seps' chs' lastc -> -> ->. unfold si_body. rewrite map_length, combine_firstn_map, combine_skipn_map.
-    rewrite !nth_error_map. unfold BTree.kid in *. destruct (nth_error K (length K / 2)) as [pc|]; reflexivity. }
+  { intros K rr seps' chs' lastc -> -> ->. unfold si_body, ksizes. rewrite map_map, map_length.
+    destruct (best_mid _ _ _ _ _ _) as [mid|]; [|reflexivity].
+    rewrite combine_firstn_map, combine_skipn_map.
+    rewrite !nth_error_map. unfold BTree.kid in *. destruct (nth_error K mid) as [pc|]; reflexivity. }
   destruct (nth_error kids i) as [sc|] eqn:En.
   - destruct (nth_error_split _ _ En) as (a & b & Hk & Hla). subst kids i.
     rewrite set_child_mid, splice_mid. cbn [fst snd].
@@ -343,27 +353,128 @@ Qed.
 Lemma kabs_flat h' (a : list kid) c : kabs h' a c = flat_map (fun sc : kid => abs h' (snd sc)) a ++ abs h' c.
 Proof. rewrite <- (app_nil_r a) at 1. rewrite kabs_app, kabs_nil. reflexivity. Qed.
 
+(* ---- the split point chosen by bytes *)
+Definition ICAP : Z := PAGE - INT_START.
+
+Lemma best_mid_mono sizes : forall total half m left b, exists r, best_mid sizes total half m left (Some b) = Some r.
+Proof.
+  induction sizes as [|sz rest IH]; intros total half m left b; cbn [best_mid]; [exists b; reflexivity|].
+  destruct (_ && _); [destruct (_ <? _)%nat|]; apply IH.
+Qed.
+
+Lemma best_mid_exists sizes : forall total half m left best,
+  sizes <> [] -> (forall z, In z sizes -> 0 <= z) -> left <= ICAP -> left + sumz sizes = total -> total <= 2 * ICAP ->
+  exists r, best_mid sizes total half m left best = Some r.
+Proof.
+  induction sizes as [|sz rest IH]; intros total half m left best Hne Hnn Hl Hsum Htot; [contradiction|].
+  cbn [best_mid]. fold ICAP. rewrite sumz_cons in Hsum.
+  assert (Hrest : 0 <= sumz rest).
+  { clear - Hnn. induction rest as [|x r IHr]; [cbn; lia|]. rewrite sumz_cons.
+    pose proof (Hnn x (or_intror (or_introl eq_refl))). assert (0 <= sumz r) by (apply IHr; intros z [Hz | Hz]; apply Hnn; [left | right; right]; assumption). lia. }
+  destruct (Z.leb_spec left ICAP) as [_ | Hc]; [|lia].
+  destruct (Z.leb_spec (total - left - sz) ICAP) as [Hr | Hr]; cbn [andb].
+  - destruct best as [b|]; [destruct (_ <? _)%nat|]; apply best_mid_mono.
+  - destruct rest as [|sz2 rest2]; [cbn in Hsum; unfold ICAP, PAGE, INT_START in *; lia|].
+    pose proof (Hnn sz (or_introl eq_refl)).
+    apply IH; [discriminate | intros z Hz; apply Hnn; right; exact Hz | lia | lia | exact Htot].
+Qed.
+
+(* whatever comes back is an index whose two sides fit *)
+Lemma best_mid_sound (all : list Z) : forall suffix pre total half best r,
+  all = pre ++ suffix -> total = sumz all ->
+  (forall b, best = Some b -> (b < length all)%nat /\ sumz (firstn b all) <= ICAP /\ total - sumz (firstn b all) - nth b all 0 <= ICAP) ->
+  best_mid suffix total half (length pre) (sumz pre) best = Some r ->
+  (r < length all)%nat /\ sumz (firstn r all) <= ICAP /\ total - sumz (firstn r all) - nth r all 0 <= ICAP.
+Proof.
+  induction suffix as [|sz rest IH]; intros pre total half best r Hall Htot Hb Hres; cbn [best_mid] in Hres.
+  - apply Hb. exact Hres.
+  - fold ICAP in Hres.
+    assert (Hpre : firstn (length pre) all = pre) by (rewrite Hall, firstn_app, Nat.sub_diag, firstn_all; cbn [firstn]; apply app_nil_r).
+    assert (Hnth : nth (length pre) all 0 = sz) by (rewrite Hall, app_nth2, Nat.sub_diag by lia; reflexivity).
+    assert (Hlen : (length pre < length all)%nat) by (rewrite Hall, app_length; cbn [length]; lia).
+    replace (S (length pre)) with (length (pre ++ [sz])) in Hres by (rewrite app_length; cbn [length]; lia).
+    replace (sumz pre + sz) with (sumz (pre ++ [sz])) in Hres by (rewrite sumz_app; cbn; lia).
+    eapply (IH (pre ++ [sz])); [rewrite <- app_assoc; exact Hall | exact Htot | | exact Hres].
+    intros b Hbb. destruct (Z.leb_spec (sumz pre) ICAP) as [H1 | H1]; cbn [andb] in Hbb; [|apply Hb; exact Hbb].
+    destruct (Z.leb_spec (total - sumz pre - sz) ICAP) as [H2 | H2]; [|apply Hb; exact Hbb].
+    assert (Hme : (length pre < length all)%nat /\ sumz (firstn (length pre) all) <= ICAP /\ total - sumz (firstn (length pre) all) - nth (length pre) all 0 <= ICAP)
+      by (rewrite Hpre, Hnth; repeat split; assumption).
+    destruct best as [b0|].
+    + destruct (_ <? _)%nat; injection Hbb as <-; [exact Hme | apply Hb; reflexivity].
+    + injection Hbb as <-. exact Hme.
+Qed.
+
+(* ---- rebuilding a page from sorted separators that fit *)
+Lemma ifree_sizes (K : list kid) : ifree V K = ICAP - sumz (ksizes K).
+Proof. reflexivity. Qed.
+
+Lemma build_kids_fit : forall (todo acc : list kid),
+  StronglySorted klt (map fst (acc ++ todo)) -> sumz (ksizes (acc ++ todo)) <= ICAP ->
+  build_kids V acc todo = inr (acc ++ todo).
+Proof.
+  induction todo as [|sc todo IH]; intros acc Hs Hf; cbn [build_kids]; [rewrite app_nil_r; reflexivity|].
+  assert (Hnn : 0 <= sumz (ksizes todo)).
+  { clear. induction todo as [|x r IHr]; [cbn; lia|]. unfold ksizes in *. cbn [map]. rewrite sumz_cons. unfold klen, ISLOT in *.
+    pose proof (Nat2Z.is_nonneg (length (fst x))). lia. }
+  unfold ksizes in Hf. rewrite map_app, sumz_app in Hf. cbn [map] in Hf. rewrite sumz_cons in Hf. fold (ksizes acc) (ksizes todo) in Hf.
+  rewrite ifree_sizes. destruct (Z.leb_spec (klen (fst sc) + ISLOT) (ICAP - sumz (ksizes acc))) as [_ | Hc]; [|lia].
+  rewrite ipos_all_lt.
+  - rewrite insert_at_length. replace (acc ++ sc :: todo) with ((acc ++ [sc]) ++ todo) in * by (rewrite <- app_assoc; reflexivity).
+    apply IH; [exact Hs|]. unfold ksizes. rewrite !map_app, !sumz_app. cbn [map]. rewrite sumz_cons. fold (ksizes acc) (ksizes todo). cbn. lia.
+  - intros x Hx. rewrite map_app in Hs. cbn [map] in Hs. eapply sorted_app_mid_lt; [exact Hs | apply in_map; exact Hx].
+Qed.
+
+Lemma ksizes_firstn (K : list kid) m : firstn m (ksizes K) = ksizes (firstn m K).
+Proof. unfold ksizes. apply firstn_map. Qed.
+
+Lemma sorted_sub_app (a b : list key) : StronglySorted klt (a ++ b) -> StronglySorted klt a /\ StronglySorted klt b.
+Proof.
+  induction a as [|x a IH]; intros H; [split; [constructor | exact H]|]. cbn [app] in H. inversion H as [|? ? H1 H2]; subst.
+  destruct (IH H1) as [Ha Hb]. split; [|exact Hb]. constructor; [exact Ha|]. rewrite Forall_app in H2. apply H2.
+Qed.
+
+(* the separators of K are small enough for a page of their own *)
+Definition seps_fit (K : list kid) : Prop := forall sc, In sc K -> klen (fst sc) + ISLOT <= ICAP.
+
 Lemma si_body_ok h' id np (K : list kid) rr lo hi :
-  kids_bounded (bounded V vlen h') lo hi K rr ->
+  kids_bounded (bounded V vlen h') lo hi K rr -> K <> [] -> sumz (ksizes K) <= 2 * ICAP -> seps_fit K ->
   match si_body id np K rr with
   | ISplit Lf prom Rg _ =>
       bounded V vlen (S h') lo (Some prom) Lf /\ bounded V vlen (S h') (Some prom) hi Rg /\ lo_lt lo prom /\ hi_ok hi prom
-      /\ abs (S h') Lf ++ abs (S h') Rg = kabs h' K rr
-  | IErr _ => True
+      /\ klen prom + ISLOT <= ICAP /\ abs (S h') Lf ++ abs (S h') Rg = kabs h' K rr
   | _ => False
   end.
 Proof.
-  intros HB. unfold si_body. set (mid := (length K / 2)%nat).
-  destruct (nth_error K mid) as [pc|] eqn:En; [|exact I].
+  intros HB Hne Htot Hfit. unfold si_body.
+  assert (Hnn : forall z, In z (ksizes K) -> 0 <= z).
+  { intros z Hz. apply in_map_iff in Hz as (x & <- & _). unfold klen, ISLOT. pose proof (Nat2Z.is_nonneg (length (fst x))). lia. }
+  destruct (best_mid_exists (ksizes K) (sumz (ksizes K)) (length K / 2)%nat O 0 None) as (mid & Hmid).
+  { destruct K; [contradiction | discriminate]. }
+  { exact Hnn. } { unfold ICAP, PAGE, INT_START; lia. } { lia. } { exact Htot. }
+  rewrite Hmid.
+  destruct (best_mid_sound (ksizes K) (ksizes K) [] (sumz (ksizes K)) (length K / 2)%nat None mid eq_refl eq_refl ltac:(discriminate) Hmid) as (Hlt & HL & HR).
+  unfold ksizes in Hlt. rewrite map_length in Hlt.
+  destruct (nth_error K mid) as [pc|] eqn:En; [|apply nth_error_None in En; lia].
   pose proof (firstn_skipn_nth K mid pc En) as HK.
+  assert (Hnthsz : nth mid (ksizes K) 0 = klen (fst pc) + ISLOT).
+  { apply nth_error_nth. unfold ksizes. apply (map_nth_error (fun sc : kid => klen (fst sc) + ISLOT)). exact En. }
+  assert (HsortK : StronglySorted klt (map fst K)) by (eapply kids_seps_sorted; exact HB).
+  assert (Hsum : sumz (ksizes K) = sumz (ksizes (firstn mid K)) + (klen (fst pc) + ISLOT) + sumz (ksizes (skipn (S mid) K))).
+  { rewrite HK at 1. unfold ksizes. rewrite map_app, sumz_app. cbn [map]. rewrite sumz_cons. lia. }
+  rewrite ksizes_firstn in HL, HR. rewrite Hnthsz in HR.
   set (A := firstn mid K) in *. set (B := skipn (S mid) K) in *.
-  destruct pc as [prom c]. rewrite HK in HB. apply kids_bounded_app in HB as (HA & HBb & Hlo & Hhi).
-  destruct (build_kids V [] A) as [e | lk] eqn:EA; [exact I|].
-  destruct (build_kids V [] B) as [e | rk] eqn:EB; [exact I|].
-  assert (Hf0 : 0 <= ifree V []) by (unfold ifree, PAGE, INT_START; cbn; lia).
-  apply build_kids_sorted in EA as [-> HfA]; [|eapply kids_seps_sorted; exact HA | exact Hf0].
-  apply build_kids_sorted in EB as [-> HfB]; [|eapply kids_seps_sorted; exact HBb | exact Hf0].
-  cbn [app fst snd]. split; [cbn; split; assumption|]. split; [cbn; split; assumption|]. split; [exact Hlo|]. split; [exact Hhi|].
+  assert (HsA : StronglySorted klt (map fst ([] ++ A))).
+  { cbn [app]. rewrite HK, map_app in HsortK. apply sorted_sub_app in HsortK. apply HsortK. }
+  assert (HsB : StronglySorted klt (map fst ([] ++ B))).
+  { cbn [app]. rewrite HK, map_app in HsortK. apply sorted_sub_app in HsortK as [_ H2]. cbn [map] in H2. inversion H2; assumption. }
+  rewrite (build_kids_fit A [] HsA) by (cbn [app]; exact HL).
+  rewrite (build_kids_fit B [] HsB) by (cbn [app]; lia).
+  cbn [app]. destruct pc as [prom c]. rewrite HK in HB. apply kids_bounded_app in HB as (HA & HBb & Hlo & Hhi).
+  cbn [fst snd] in *.
+  split; [cbn [BTreeInv.bounded]; split; [rewrite ifree_sizes; lia | exact HA]|].
+  split; [cbn [BTreeInv.bounded]; split; [rewrite ifree_sizes; lia | exact HBb]|].
+  split; [exact Hlo|]. split; [exact Hhi|].
+  split; [apply (Hfit (prom, c)); eapply nth_error_In; exact En|].
   rewrite !abs_node, HK, kabs_app, kabs_cons, kabs_flat. cbn [snd]. rewrite <- app_assoc. reflexivity.
 Qed.
 
